@@ -266,6 +266,11 @@ func keyLoopExits(p *core.Prog, r *core.Run, m *echModel, rule string) {
 						why = "key or hello cannot be processed: " + f.L.Args[0].Name
 					case f.Op == "==" && f.R.Name == "nil" && f.L.Val == recvV:
 						why = "no HPKE context (empty enc)"
+					case f.Op == "==" && f.R.Name == "0" && f.L.Op == "call" && f.L.Name == "len" && f.L.Args[0].Op == "field" && f.L.Args[0].Name == "Enc":
+						// the same decision taken where it arises: a first hello without
+						// an encapsulated key sets up no context (a property of the hello,
+						// not of the candidate key)
+						why = "no HPKE context (empty enc)"
 					}
 				}
 				r.Check(rule, key, why != "", pos, "the key search is abandoned %s; guards on this exit: %s",
